@@ -187,7 +187,13 @@ def selectors(draw, U, xletters, allow_list, force_nonempty=False):
         if k == "single":
             sel[l] = {"kind": "single", "items": [items[draw(st.integers(0, len(items) - 1))]]}
         else:
-            sub = draw(st.lists(st.sampled_from(items), min_size=1, max_size=len(items), unique=True))
+            if len(items) >= 3 and draw(st.integers(0, 2)) == 0:
+                # a contiguous run of the parent's items in a permuted order (looks "almost like a slice")
+                n = draw(st.integers(3, len(items)))
+                a = draw(st.integers(0, len(items) - n))
+                sub = list(draw(st.permutations(items[a : a + n])))
+            else:
+                sub = draw(st.lists(st.sampled_from(items), min_size=1, max_size=len(items), unique=True))
             sel[l] = {"kind": k, "items": sub}
     # key order in the dict need not follow the array's dimension order
     if len(sel) > 1 and draw(st.booleans()):
@@ -223,7 +229,7 @@ class Read(Facet):
     shards = {"quick": 8, "thorough": 16}
 
     def strategy(self, tier):
-        return index_cases("read", max_dims=4 if tier == "quick" else 5, max_len=3)
+        return index_cases("read", max_dims=4 if tier == "quick" else 5, max_len=5)
 
     def run(self, desc):
         return run_read(desc)
@@ -235,7 +241,7 @@ class Write(Facet):
     shards = {"quick": 8, "thorough": 16}
 
     def strategy(self, tier):
-        return index_cases("write", max_dims=4 if tier == "quick" else 5, max_len=3)
+        return index_cases("write", max_dims=4 if tier == "quick" else 5, max_len=5)
 
     def run(self, desc):
         return run_write(desc)
